@@ -1022,7 +1022,7 @@ func main() {
 			c.Hist("post:flat")
 		}
 		if err != nil {
-			c.Fail("harness:post", "generated mixin module does not compile / project: "+err.Error(), rp)
+			c.Fail("valid-spec-rejected:mixin", "a grammatical mixin module is rejected or comes out with unexpected members: "+strings.TrimSpace(err.Error()), rp)
 			continue
 		}
 		if bad := judgeMixin(apps, obs); bad != "" {
